@@ -87,6 +87,11 @@ def spec_compose_numeric_array(self, values, item_size):
             flat = V.concat(flat, S.enc(ve, size, oc, 'bytearray'), 'bytearray')
     else:
         _, n, elem = view
+        if isinstance(values, SSeq) and isinstance(values.elem, tuple) and values.elem[0] == 'enum' \
+                and issubclass(values.elem[1], int):
+            # IntEnum members are packed as their integer values
+            ecls = values.elem[1]
+            values = SSeq(values.n, lambda j, at=values._at: V.enum_table(ecls, at(j), lambda m: int(m.value)), 'list')
         if not isinstance(values, SSeq) or values.elem != 'int':
             raise E.Unsupported('_compose_numeric_array over %r' % (values,))
         if P.branch(n <= 0):
